@@ -22,7 +22,7 @@ def run(prop, tier):
     common.parallel(lambda j: common.run_harness(x, j, acc, "resource_seq " + " ".join(map(str, j)), timeout=7000, crash_prop=prop, env={"VERIF_SCRATCH_DIR": d}), jobs)
     s = acc.stats
     cov = dict(evaluations=s.get("evaluations", 0), distinct_nontrivial=s.get("nontrivial", 0),
-               rule="programs = every sequence of up to %d steps out of 21 cross-module steps (trees, hash table + list, INI incl. missing file, hashes, errors, directory existing/missing, TCP exchange, refused "
+               rule="programs = every sequence of up to %d steps out of 22 cross-module steps (trees, hash table + list, INI incl. missing file, hashes, errors, directory existing/missing, TCP exchange, UDP exchange with and without the optional sender address, refused "
                     "connection, accept/receive time-outs and bind to a port in use, semaphore with two handles, shm with equal and with different sizes, shm buffer handles, zero-size shm that fails, "
                     "joined / detached / foreign threads, all lock types, library loader on a valid, a missing and a non-ELF file, TLS key), each run in a forked ASan child; plus, for every system-call "
                     "invocation of every single-step program, that call forced to fail (socket, bind, listen, accept, getsockname, getsockopt, shm_open, sem_open, ftruncate, fstat, mmap, opendir, dlopen, "
